@@ -26,6 +26,8 @@ pub enum XferOp {
     Deliver { pick: i32 },
     Drop { pick: i32 },
     Dup { pick: i32 },
+    /// the client starts over (`DeltaReceiver::reset`, e.g. map change): from here on it must behave like a new receiver
+    Reset,
 }
 
 struct Transfer {
@@ -93,6 +95,7 @@ impl Engine for XferEngine {
             _ => c.range(3, 12),
         };
         let len_profile = c.below(5);
+        let resets = c.chance(1, 5);
         let mut ops = Vec::new();
         let mut tick = first_tick as i64;
         for t in 0..n_ticks {
@@ -128,6 +131,9 @@ impl Engine for XferEngine {
             let parts = ((len as usize + 899) / 900).max(1);
             let deliveries = if interleave && t + 1 < n_ticks && s.chance(1, 2) { s.usize_below(parts + 1) } else { parts + s.usize_below(3) };
             for _ in 0..deliveries {
+                if resets && s.chance(1, 25) {
+                    ops.push(XferOp::Reset);
+                }
                 if loss > 0 && s.chance(loss, 1000) {
                     ops.push(XferOp::Drop { pick: s.below(64) as i32 });
                 }
@@ -217,6 +223,24 @@ impl Engine for XferEngine {
                         _ => "probe_transfer_5plus_parts",
                     });
                     transfers.push(Transfer { tick: t, base, crc, data, num_parts: n, completed: 0 });
+                }
+                XferOp::Reset => {
+                    ctx.t(5);
+                    if !cur_parts.is_empty() && !cur_done {
+                        ctx.count("probe_reset_mid_transfer");
+                    }
+                    ctx.count("probe_reset");
+                    if let Err(p) = guard(|| recv.reset()) {
+                        return Some(Self::v("panic", &[("where", "reset"), ("message", &p.msg_class()), ("file", &p.file_class())], format!("reset panicked: {} at {}:{}", p.msg, p.file, p.line)));
+                    }
+                    newest_seen = None;
+                    newest_completed = None;
+                    cur_parts.clear();
+                    cur_done = false;
+                    for t in transfers.iter_mut() {
+                        t.completed = 0;
+                    }
+                    ctx.logf(|| "receiver reset".into());
                 }
                 XferOp::Drop { pick } => {
                     ctx.t(2);
